@@ -163,6 +163,12 @@ def run(ctx):
     if diverged and not ctx.violations and not ctx.known_hits:
         raise vk.Inconclusive("script prefixes diverged from the predicted directory (trace lines %s) although no "
                               "operation was rejected" % diverged[:5])
+    # system histories: merge / vacuum (self-merge, explode) composed with index runs, cleanup and
+    # (un)assignment on one index directory (spec/sys/ZoektSeq.tla, checks/sys_zoekt.py): a live
+    # repository must survive every merge at its indexed version, visible exactly once
+    from checks import sys_zoekt
+    sys_stats = sys_zoekt.run_stage(ctx)
+    total_ops += sys_stats.get("steps", 0)
     ctx.assumptions += [
         "TLC; the driver's projection (whole-content constant-true search, a symbol query matching every symbol, "
         "15 fixed queries incl. one with ChunkMatches, List in both field modes) of what the directory searcher "
@@ -178,4 +184,5 @@ def run(ctx):
              "operation of the seeded random scenarios); non-trivial = successful merges / explodes whose inputs hold "
              "at least two repositories",
         exhaustive=False,
-        extra={"scripts_from_tlc": len(scripts), "operations_by_kind": per_op, "random_scenarios": nrandom})
+        extra={"scripts_from_tlc": len(scripts), "operations_by_kind": per_op, "random_scenarios": nrandom,
+               "system_histories": sys_stats})
